@@ -974,6 +974,9 @@ class _Simu(_IObserver, _params.Updatable, ABC):
             self.Need_Update()
         elif isinstance(observable, Mesh):
             self._Check_dim_mesh_material()
+            # values memoised per element group (e.g. the constant mass matrix) were computed from
+            # the geometry the mesh had before it moved
+            clear_cached_computed_values(self)
             self.Need_Update()
         else:
             Terminal.MyPrintError("Notification not yet implemented")
